@@ -125,6 +125,7 @@ inductive Out where
   | each (l : List (R Read.DVal))
   | unit
   | noSuchIter
+deriving DecidableEq
 
 /-- state of a history: the live iterators (the deserializer itself is immutable) -/
 abbrev St := List Iter
